@@ -248,6 +248,7 @@ def run_property(mod, tier, seed, replay=None):
 
     batch = 4000
     diffs_all = []
+    skipped = 0
     for b in range(0, len(scs), batch):
         part = scs[b:b + batch]
         impl = scn.run_impl(part, harness)
@@ -255,6 +256,10 @@ def run_property(mod, tier, seed, replay=None):
         for s in part:
             il, ist = impl.get(s.id, ([], "MISSING"))
             ml, mst = model.get(s.id, ([], "MISSING"))
+            if ist == "SKIPPED":
+                # not run: five scenarios of the same batch had hit the time limit before (each of them is a violation)
+                skipped += 1
+                continue
             res.evaluations += 1
             is_corpus = "corpus" in s.meta
             key = mod.nontrivial(s, il) if (ist == "ok" and not is_corpus) else None
@@ -278,6 +283,8 @@ def run_property(mod, tier, seed, replay=None):
             elif not s.meta.get("impl_only") and (il != ml or mst != "ok"):
                 diffs_all.append((s, il, ist, ml, mst))
     res.disagreements = len(diffs_all)
+    if skipped:
+        res.notes.append("%d scenarios were not run because five scenarios of their batch had run into the time limit before" % skipped)
 
     if extra and not replay:
         extra(res, harness, tier, rng)
